@@ -628,3 +628,4 @@ def _hoist_remaining(src):
 
 
 V('STALE_stretchy_length_hoisted', ['C05', 'C06'], 'bits.py', fn=_hoist_remaining, expect=['STALE'])
+V('REP_bracket_at_least_one_copy', ['C05'], 'utils.py', "','.join([s[start + 1:p]] * factor)", "(factor - 1) * (s[start + 1:p] + ',') + s[start + 1:p]", ['REP'])
